@@ -117,7 +117,7 @@ int main() {
         for (uint32_t n = nb; n < ne; n++) {
           uint64_t k = n ? m.end[n - 1] : 0;
           uint64_t gb = *g.edgeBegin(n), ge = *g.edgeEnd(n);
-          if (ee > eb && (gb != k || ge != m.end[n])) vsim_fail("c12.index", "BufferedGraph[%u,%u): node %u owns [%lu,%lu), file says [%lu,%lu)", nb, ne, n, (unsigned long)gb, (unsigned long)ge, (unsigned long)k, (unsigned long)m.end[n]);
+          if (gb != k || ge != m.end[n]) vsim_fail("c12.index", "BufferedGraph[%u,%u): node %u owns [%lu,%lu), file says [%lu,%lu)", nb, ne, n, (unsigned long)gb, (unsigned long)ge, (unsigned long)k, (unsigned long)m.end[n]);
           if (ee == eb) continue;
           for (uint64_t e = gb; e < ge; e++) {
             uint64_t d = g.edgeDestination(e), v = (uint64_t)g.edgeData(e);
